@@ -386,7 +386,40 @@ pub fn run(ctx: &Ctx) {
         Opts { shrink_iters: 60, ..Opts::default() },
         check_reload,
     );
-    for cl in ["Concurrent", "FreshThread"] {
-        let _ = cl;
-    }
+    // trees of height 15 for keys that share their seed (hence their tree identifier) but not
+    // their parameters, generated and used one after the other in this process
+    let seq: Vec<u8> = vec![0];
+    ctx.enumerate("tall_same_seed_sequence", seq.len() as u64, false, |i| seq[i as usize], |_c: &u8| {
+        let h = HashId::Sha256_128;
+        let seed = gen::expand(0x5a3e, h.n());
+        let m = crate::refmodel::Model::rfc(h);
+        let order: [Vec<Level>; 4] = [vec![(2, 15)], vec![(1, 15)], vec![(2, 15)], vec![(4, 2), (1, 15)]];
+        for (k, lv) in order.iter().enumerate() {
+            let want = hss::public_key(&m, lv, &seed);
+            match libapi::keygen(h, lv, &seed, None) {
+                Out::Ok((_, pk)) if pk == want => {}
+                Out::Ok(_) => return fail("context-dependent keygen tall", format!("keygen #{} of a same-seed sequence of H15 keys ({}) returns a public key that differs from the derivation", k + 1, levels_str(lv))),
+                o => return fail("call-failed-in-context", format!("keygen {} {:?}", o.kind(), o.panic_msg())),
+            }
+        }
+        // and signing: two 2-level keys with the same seed whose H15 bottom trees differ in W
+        for w in [1u32, 2, 1] {
+            let lv: Vec<Level> = vec![(8, 2), (w, 15)];
+            let blob = hss::private_key_blob(&lv, 5, &seed);
+            let want = hss::sign(&crate::props::common::compat_model(ctx, h), &lv, &seed, 5, b"tall same seed");
+            match libapi::sign(h, b"tall same seed", &blob, Cb::Accept, None).0 {
+                Out::Ok(s) if s == want => {}
+                Out::Ok(_) => {
+                    // ls-table known pairs are not this check's business: compare through the library's own shift
+                    let alt = hss::sign(&crate::props::common::model_with_lib_ls(h), &lv, &seed, 5, b"tall same seed");
+                    match libapi::sign(h, b"tall same seed", &blob, Cb::Accept, None).0 {
+                        Out::Ok(s2) if s2 == alt => {}
+                        _ => return fail("context-dependent sign tall", format!("signature of a key with an H15 bottom tree (W{}) depends on the same-seed key handled before it", w)),
+                    }
+                }
+                o => return fail("call-failed-in-context", format!("sign {} {:?}", o.kind(), o.panic_msg())),
+            }
+        }
+        pass("tall-same-seed", true)
+    });
 }
